@@ -233,6 +233,20 @@ def sqrt_case(ctx, alg, iso, cfg, name):
     kd = iso.from_ref(E)
     keys = (0,) + tuple(kd)
     vals = [a] + [float(kd[k]) * b for k in kd]
+    wide = rng.random()
+    if wide < 0.25:
+        # positive scalar part, but a non-scalar part that outweighs it (for B^2 > 0 the Study norm a^2 - b^2 B^2 is negative and its
+        # root complex): still a Study number with positive scalar part
+        a = float(rng.choice((0.5, 1.0, 2.0)))
+        b = rng.choice((1.5, -2.0, 3.0, 2.5)) * (1 + a)
+        vals = [a] + [float(kd[k]) * b for k in kd]
+        ctx.count('sqrt_nonscalar_part_outweighs_scalar')
+    elif wide < 0.45:
+        # complex coefficients (scalar part with positive real part)
+        a = complex(rng.choice((2, 3, 5)), rng.choice((-1, 0, 1, 2)))
+        b = complex(rng.choice((0.5, -1.0, 2.0)), rng.choice((-2.0, 0.5, 1.0)))
+        vals = [a] + [float(kd[k]) * b for k in kd]
+        ctx.count('sqrt_complex_coefficients')
     if rng.random() < 0.3:
         order = list(range(len(keys)))
         rng.shuffle(order)
